@@ -527,19 +527,18 @@ func (r *refDynValue) getValue(
 ) (value, error) {
 	ref := (*reference)(r)
 	v, err := ref.resolveRef(p.ctx.getParent(), opts)
-	// If not found or we have a cyclic reference we try the environment resolvers
-	if v != nil || criticalResolveError(err) {
-		return v, err
+	if v != nil {
+		return v, nil
 	}
+	// Not found in any tree - not set, cyclic, or the path runs into a value that
+	// is no object: the resolvers are asked
 	previousErr := err
 
 	str, parseCfg, err := ref.resolveEnv(p.ctx.getParent(), opts)
 	if err != nil {
-		// TODO(ph): Not everything is an Error, will do some cleanup in another PR.
-		if v, ok := previousErr.(Error); ok {
-			if v.Reason() == ErrCyclicReference {
-				return nil, previousErr
-			}
+		// no resolver knows the name either: a cycle or a clash is reported as such
+		if isCyclicError(previousErr) || criticalResolveError(previousErr) {
+			return nil, previousErr
 		}
 		return nil, err
 	}
